@@ -275,9 +275,9 @@ def run(tier, seed):
         tasks = [("rnd", 5, 8, 260, seed * 1000 + i) for i in range(64)]
         n_univ = 64 * 260
     else:
-        tasks = [("rnd", 5, 8, 2000, seed * 1000 + i) for i in range(128)] + \
-                [("rnd", 6, 10, 400, seed * 1000 + 500 + i) for i in range(64)]
-        n_univ = 128 * 2000 + 64 * 400
+        tasks = [("rnd", 5, 8, 1200, seed * 1000 + i) for i in range(128)] + \
+                [("rnd", 6, 10, 300, seed * 1000 + 500 + i) for i in range(64)]
+        n_univ = 128 * 1200 + 64 * 300
     bound = (f"SEEDED: {n_univ} random integer universes (2..5 classes, 2..8 rules"
              + ("" if tier == "quick" else "; a slice with 2..6 classes, 2..10 rules")
              + "; arity 0..3 with repeated children, shifts -2..3, arity-0 rules in bucket VERIFICATION), kept when the oracle "
